@@ -9,7 +9,7 @@ tie:     the same model on IEEE doubles (drv_c08) vs the compiled reb_simulation
 search:  the contract asserted on the real code (Fraction step counts, independently recomputed exit
          conditions, split integrations, Python exception classes)
 """
-import ctypes, math, os, sys, json, subprocess
+import ctypes, math, os, sys, json, subprocess, time
 from fractions import Fraction
 sys.path.insert(0, os.path.dirname(os.path.abspath(__file__)))
 from common import *
@@ -29,7 +29,7 @@ STATUS_NAMES = {-10: "SINGLE_STEP", -5: "SCREENSHOT_READY", -4: "SCREENSHOT", -3
                 0: "SUCCESS", 1: "GENERIC_ERROR", 2: "NO_PARTICLES", 3: "ENCOUNTER", 4: "ESCAPE", 5: "USER", 6: "SIGINT",
                 7: "COLLISION"}
 CAP = 400          # in-process step cap per call (heartbeat calls reb_simulation_stop; the model gets the same flag)
-F_COLL, F_USER, F_ESC, F_ENC, F_SIGINT, F_ERR = 1, 2, 4, 8, 16, 32
+F_COLL, F_USER, F_ESC, F_ENC, F_SIGINT, F_ERR, F_STEPERR = 1, 2, 4, 8, 16, 32, 64
 
 
 def ulp_step(x, j):
@@ -98,6 +98,10 @@ class Harness:
                 s.dt = dt_new
             beats.append((s.t, s.dt, s.dt_last_done, s.steps_done, s._status))
             mask = 0
+            if k > 0 and s._status == 1:
+                # the step itself ended with GENERIC_ERROR (BS: NaN / missing derivatives; the no-progress guard): the error message it queued
+                # is waiting when reb_check_exit runs
+                mask |= F_STEPERR | F_ERR
             if conds is not None:
                 mask |= conds(s)
             ev = events.get(k, ())
@@ -201,7 +205,7 @@ def tolerant_equal(a, e, rec):
         return u == v or abs(u - v) <= 8 * math.ulp(scale) + 1e-9 * min(abs(u), abs(v)) * 0
     def st_same(x, y):
         x, y = int(x), int(y)
-        return (x < 0 and y < 0) or x == y
+        return (x in (-1, -2) and y in (-1, -2)) or x == y      # RUNNING vs LAST_STEP only; pause / countdown statuses must match
     if not (close(a[1], e[1], T) and close(a[2], e[2], T) and close(a[3], e[3], T) and st_same(a[5], e[5])):
         return False
     for i in range(7, len(a), 4):
@@ -440,6 +444,7 @@ def first_firing(rec, is_bs=False):
         m = mask if k > 0 else (mask & ~(F_COLL | F_SIGINT))
         st = None
         if m & F_COLL: st = 7
+        elif m & F_STEPERR: st = 1
         if m & F_USER: st = 5
         if m & F_ESC: st = 4
         if m & F_ENC: st = 3
@@ -514,6 +519,8 @@ def run(c):
         if kind is not None and kind != KIND[k]:
             c.corr_break("time bookkeeping of integrator %s is '%s' in the source, model runs it as '%s'" % (k, kind, KIND[k]), list(sig))
     c.cov["step_kinds_unrecognised"] = [k for k, v in info["kinds"].items() if v[0] is None]
+    has_guard = info["has_progress_guard"]
+    c.cov["no_progress_guard_in_source"] = has_guard
 
     c.prove(["RV.Props.C08"])
     exe = lean_exe("drv_c08")
@@ -549,7 +556,22 @@ def run(c):
     hist_steps = {}
     fam_hist = {}
 
+    guard_stats = {"stalled_steps": 0, "errors_raised_inside_step": 0}
+
     def record(integ, rec, tag, is_bs=False):
+        # no-progress guard, recomputed from what the heartbeats saw (fixed-step integrators: dt never changes inside a step, so a step
+        # stalls iff t is unchanged): with the guard in the source a stalled step must end with status GENERIC_ERROR, without it never
+        if KIND.get(integ) in ("once", "halves", "janus") and rec.get("dt_in") is None and rec["tmax"] != math.inf:
+            b = rec["beats"]
+            for k in range(1, len(b)):
+                stalled = d2h(b[k][0]) == d2h(b[k - 1][0]) and b[k][4] != 7
+                seen = b[k][4] == 1
+                guard_stats["stalled_steps"] += 1 if stalled else 0
+                guard_stats["errors_raised_inside_step"] += 1 if seen else 0
+                if seen != (stalled and has_guard):
+                    fails.append(("no-progress-guard", "a step that did not advance the time %s" % ("was not stopped by the no-progress guard" if stalled else "— none — was reported as stalled"),
+                                  dict(integrator=integ, case=tag, boundary=k, t=b[k][0], dt=b[k][1], status=b[k][4], tmax=rec["tmax"])))
+                    break
         lines.append(model_line(KIND[integ], rec, is_bs=is_bs, n_odes=rec["n_odes"]))
         expect.append(expected_answer(rec))
         meta.append((integ, tag, rec))
@@ -655,6 +677,7 @@ def run(c):
             c.count((integ, kind, exact, rec["ret"]), nontrivial=(rec["ret"] != 0 or kind == "none"))
     c.cov["scene_status_histogram"] = scene_hist
 
+    c.log("section emulated")
     # ------------------------------------------------------------------ D: emulated adaptive integrator on the real loop
     nD = 3000 if thorough else 60
     emu = {"rejects": 0, "partial": 0, "last_step_short": 0, "fallback_to_running": 0, "another_step": 0}
@@ -705,6 +728,7 @@ def run(c):
         c.count(("emulated", style, exact, fam))
     c.cov["emulated_adaptive"] = emu
 
+    c.log("section options")
     # ------------------------------------------------------------------ E: the adaptive-step hypothesis on the real integrators
     # `IsAdaptive` (hypothesis of c08_adaptive_exact_finish) asserted at every heartbeat of real runs that force the step-size controller to
     # shrink / reject (e = 0.95 started at pericentre, crossing orbits), across the documented step-size options and both time directions:
@@ -753,6 +777,8 @@ def run(c):
                 tmax = direction * rng.uniform(3.0, 7.5)
                 exact = rng.choice([1, 1, 0])
                 rec = H.call(sim, tmax, exact, cap=BUDGET)
+                if integ == "ias15" and lo:
+                    rec["ias15_min_dt"] = lo
                 record(integ, rec, "options", is_bs=(integ == "bs"))
                 beats = rec["beats"]
                 opt_stats["runs"] += 1
@@ -780,7 +806,11 @@ def run(c):
                         opt_stats["min_dt_clamped_steps"] += 1
                     if bad:
                         break
-                if bad is None and (rec["capped"] or rec["ret"] != 0):
+                if bad is None and rec["ret"] == 1 and len(beats) >= 2 and d2h(beats[-1][0]) == d2h(beats[-2][0]) and \
+                        beats[-1][4] == 1 and has_guard:
+                    # the no-progress guard (fixes/C08-absorbed-step-error.diff) turned the endless rejection into an error: that is the repair
+                    opt_stats["stopped_by_progress_guard"] = opt_stats.get("stopped_by_progress_guard", 0) + 1
+                elif bad is None and (rec["capped"] or rec["ret"] != 0):
                     opt_stats["capped"] += 1
                     tail = beats[-200:]
                     if integ == "bs" and lo and all(d2h(b[0]) == d2h(tail[0][0]) and abs(b[1]) <= lo * (1 + 1e-12) for b in tail):
@@ -916,11 +946,287 @@ def run(c):
                 c.count(("last-step-exit", integ, kind, direction))
     c.cov["exit_on_shortened_last_step"] = gstats
 
+    c.log("section pause")
+    # ------------------------------------------------------------------ P: PAUSED / SINGLE_STEP machinery, driven from a second thread
+    # reb_simulation_integrate runs in its own thread (ctypes releases the GIL); this thread plays the user of the web visualisation and sends
+    # space / arrow-down / page-down to the REBOUND server's /keyboard endpoint (server.c:346-375).  The heartbeat signals the boundary at
+    # which a pause is requested; r->usleep keeps the integrator asleep between heartbeat and reb_check_exit so that the key lands there.
+    # Keys sent while the integrator waits in the PAUSED loop land at the boundary it is blocked at (steps_done is stable).  The observed
+    # (boundary, key) schedule goes to the model (integrateP); independently, the paused run must equal an unpaused twin bit for bit.
+    pstats = {"runs": 0, "keys": 0, "pauses_taken": 0, "pauses_ignored": 0, "single_steps": 0, "countdown_beats": 0, "retries": 0,
+              "server_unavailable": 0}
+    import threading, urllib.request
+    KEYCODE = {"s": 32, "1": 264, "5": 267}
+    port_base = 21000 + (os.getpid() * 7) % 20000
+
+    def paused_run(integ, dt0, tmax, exact, episodes, seed, port):
+        sim = H.make_sim(integ, 0.0, dt0, SplitMix(seed))
+        twin = H.make_sim(integ, 0.0, dt0, SplitMix(seed))
+        try:
+            sim.start_server(port=port)
+        except Exception:
+            return None
+        time.sleep(0.15)
+        steps0 = sim.steps_done
+        pre = (sim.t, sim.dt, sim.dt_last_done, sim._status, sim.steps_done)
+        beats, flags = [], []
+        want = {"k": None}
+        reached = threading.Event()
+
+        def hb(sp):
+            q = sp.contents
+            beats.append((q.t, q.dt, q.dt_last_done, q.steps_done, q._status))
+            flags.append([0, q.N])
+            if want["k"] is not None and len(beats) - 1 == want["k"]:
+                q.usleep = 400000          # the integrator sleeps 0.4 s between this heartbeat and reb_check_exit: the key lands here
+                reached.set()
+            elif q.usleep:
+                q.usleep = 0
+        sim.heartbeat = hb
+        sim.exact_finish_time = exact
+        out = []
+        th = threading.Thread(target=lambda: out.append(H.clib.reb_simulation_integrate(ctypes.byref(sim), ctypes.c_double(tmax))))
+
+        def send(key):
+            import socket
+            with socket.create_connection(("127.0.0.1", port), timeout=5) as sk:
+                sk.sendall(("GET /keyboard/%d HTTP/1.1\r\nHost: localhost\r\n\r\n" % KEYCODE[key]).encode())
+                sk.settimeout(5)
+                try:
+                    while sk.recv(4096):
+                        pass
+                except OSError:
+                    pass
+
+        def wait_blocked(min_steps, timeout=3.0):
+            t_end = time.time() + timeout
+            while time.time() < t_end and th.is_alive():
+                if sim._status == -3 and sim.steps_done - steps0 >= min_steps:
+                    time.sleep(0.003)
+                    if sim._status == -3:
+                        return True
+                time.sleep(0.0005)
+            return False
+
+        sched = []          # (boundary, "pre" | "wait", key)
+        episodes = list(episodes)
+        want["k"] = episodes[0][0] if episodes else None
+        th.start()
+        for ktarget, keys, early in episodes:
+            want["k"] = ktarget
+            if len(beats) - 1 > ktarget:
+                break
+            if not reached.wait(timeout=5.0) or not th.is_alive():
+                break
+            reached.clear()
+            keys = list(keys)
+            send("s")                                   # lands while the integrator sleeps after the heartbeat of boundary ktarget
+            sched.append((ktarget, "pre", "s"))
+            if early and keys:                          # a second key before the integrator has even entered reb_check_exit
+                send(keys[0]); sched.append((ktarget, "pre", keys[0])); keys = keys[1:]
+            time.sleep(0.45)                            # now the integrator is past its sleep: in the wait loop, or gone on
+            for key in keys:
+                if not (th.is_alive() and sim._status == -3):
+                    break
+                b = sim.steps_done - steps0
+                send(key)
+                sched.append((b, "wait", key))
+                if key == "s":
+                    break
+                t_end = time.time() + 2.0               # one step (arrow-down) or up to 51 (page-down), then PAUSED again - or the end
+                while time.time() < t_end and th.is_alive() and not (sim._status == -3 and sim.steps_done - steps0 > b):
+                    time.sleep(0.001)
+                time.sleep(0.01)
+        # never leave the integrator paused
+        t_end = time.time() + 10
+        while th.is_alive() and time.time() < t_end:
+            if sim._status == -3:
+                time.sleep(0.01)
+                if sim._status == -3 and th.is_alive():
+                    b = sim.steps_done - steps0
+                    send("s"); sched.append((b, "wait", "s"))
+                    time.sleep(0.01)
+            time.sleep(0.002)
+        th.join(timeout=10)
+        try:
+            sim.stop_server()
+        except Exception:
+            pass
+        if th.is_alive() or not out:
+            return "stuck"
+        post = (sim.t, sim.dt, sim.dt_last_done, sim._status, sim.steps_done)
+        rec = dict(pre=pre, beats=beats, post=post, ret=out[0], flags=flags, capped=False, tmax=tmax, exact=exact, n_odes=sim._N_odes,
+                   dt_in=None, sched=sched)
+        twin.integrate(tmax, exact_finish_time=exact)
+        return rec, sim, twin
+
+    nP = 24 if thorough else 8
+    port_i = 0
+    for rep in range(nP):
+        rng = c.rng.fork()
+        integ = rng.choice(["leapfrog", "whfast", "none", "ias15", "saba"])
+        dt0 = rng.choice([0.1, 0.125])
+        nsteps = rng.randint(8, 18)
+        exact = rng.choice([0, 1])
+        tmax = dt0 * (nsteps + rng.choice([0.0, 0.4]))
+        style = rng.choice(["pause-resume", "single-steps", "page-down", "pause-at-last-step", "two-episodes"])
+        if integ == "ias15":
+            nsteps = 6
+        k1 = rng.randint(1, max(1, nsteps - 4))
+        early = rng.chance(0.5)
+        episodes = {"pause-resume": [(k1, ["s"], early)],
+                    "single-steps": [(k1, ["1"] * rng.randint(1, 3) + ["s"], early)],
+                    "page-down": [(k1, ["5"], early)],
+                    "pause-at-last-step": [(nsteps if tmax > dt0 * nsteps else nsteps - 1, ["s"], False)],
+                    "two-episodes": [(k1, ["1", "s"], early), (k1 + 3, ["s"], False)]}[style]
+        seed = rng.next()
+        res = None
+        for attempt in range(3):
+            port_i += 1
+            res = paused_run(integ, dt0, tmax, exact, episodes, seed, port_base + port_i)
+            if res is None:
+                pstats["server_unavailable"] += 1
+                break
+            if res == "stuck":
+                pstats["retries"] += 1
+                continue
+            rec, simp, twin = res
+            # (scheduling is not under our control: if a key did not land where the handshake put it the beats would show a pause at
+            #  another boundary; the model line uses the observed schedule, the twin comparison needs none)
+            break
+        if res is None or res == "stuck":
+            if res == "stuck":
+                fails.append(("pause-never-resumes", "integrate() did not return after the pause was released", dict(integrator=integ, style=style)))
+            continue
+        pstats["runs"] += 1
+        pstats["keys"] += len(rec["sched"])
+        sts = [b[4] for b in rec["beats"]]
+        pstats["countdown_beats"] += sum(1 for x in sts if x <= -10)
+        pstats["single_steps"] += sum(1 for k, ph, key in rec["sched"] if key == "1")
+        pstats["keys_before_check_exit"] = pstats.get("keys_before_check_exit", 0) + sum(1 for k, ph, key in rec["sched"] if ph == "pre")
+        pstats["pauses_taken"] += 1 if any(x == -3 or x <= -10 for x in sts) or len(rec["sched"]) > 1 else 0
+        # independent assertion: pausing / stepping does not change what is integrated
+        if state_bytes(simp) != state_bytes(twin) or simp.steps_done != twin.steps_done or d2h(simp.dt) != d2h(twin.dt) or rec["ret"] != twin._status:
+            fails.append(("pause-changes-trajectory", "a paused / single-stepped integration differs from the uninterrupted one",
+                          dict(integrator=integ, style=style, dt=dt0, tmax=tmax, exact_finish_time=exact, keys=rec["sched"],
+                               t_paused=simp.t, t_plain=twin.t, steps_paused=simp.steps_done, steps_plain=twin.steps_done,
+                               dt_paused=simp.dt, dt_plain=twin.dt, status_paused=rec["ret"], status_plain=twin._status)))
+        # model tie with the observed schedule
+        by_k = {}
+        for k, phase, key in rec["sched"]:
+            by_k.setdefault(k, {"pre": "", "wait": ""})[phase] += key
+        line = model_line(KIND[integ], rec, is_bs=False, n_odes=rec["n_odes"], fuel=len(rec["beats"]) + 5)
+        line += " %d " % len(by_k) + " ".join("%d:%s/%s" % (k, v["pre"], v["wait"]) for k, v in sorted(by_k.items()))
+        lines.append(line)
+        expect.append(expected_answer(rec))
+        meta.append((integ, "paused:" + style, rec))
+        c.count(("paused", integ, style, exact))
+    c.cov["pause_machinery"] = pstats
+
+    c.log("section ias15-controller")
+    # ------------------------------------------------------------------ I: the IAS15 step-size controller itself (force-free runs)
+    # Without forces the error estimate of IAS15 is not a normal number and it asks for dt_done/safety_factor: then every dt it uses is
+    # decided by the controller alone (min_dt clamp with copysign, x4 growth limit) together with reb_check_exit's cuts.  The Lean model of the
+    # controller (`stepIAS15 ... ias15RawFree`) must predict every heartbeat bit for bit: no observed step sizes are fed to the model here.
+    istats = {"runs": 0, "steps": 0, "clamped_to_min_dt": 0}
+    nI = 6 if thorough else 2
+    for rep in range(nI):
+        for mode in (0, 1, 2, 3):
+            for min_dt in (0.0, 1e-3, 0.05, 0.7):
+                rng = c.rng.fork()
+                direction = rng.choice([1, -1])
+                dt0 = rng.choice([1e-4, 1e-3, 0.01, 0.3]) * rng.choice([1, -1])
+                sim = H.make_sim("ias15", rng.choice([0.0, 1.0, -3.0]), dt0, rng, physics="free")
+                sim.add(m=0.0, x=0.0)
+                sim.add(m=0.0, x=1.0, vy=0.3)
+                sim.ri_ias15.adaptive_mode = mode
+                sim.ri_ias15.min_dt = min_dt
+                exact = rng.choice([1, 1, 0])
+                t_a = sim.t
+                targets = [t_a + direction * rng.uniform(0.5, 40.0)]
+                if rng.chance(0.5):
+                    targets.append(targets[0] + direction * rng.uniform(0.1, 30.0))
+                for tgt in targets:
+                    rec = H.call(sim, tgt, exact)
+                    ln = model_line("once", rec).split()
+                    ln[1] = "ias15free"
+                    ln[-1:] = ["1", "1:%s:%s" % (d2h(min_dt), d2h(0.0))]
+                    lines.append(" ".join(ln))
+                    expect.append(expected_answer(rec))
+                    meta.append(("ias15", "controller-free", rec))
+                    istats["runs"] += 1
+                    istats["steps"] += len(rec["beats"]) - 1
+                    istats["clamped_to_min_dt"] += sum(1 for b in rec["beats"][1:] if min_dt and 4 * abs(b[2]) < min_dt)
+                    check_contract(c, "ias15", rec, abs(dt0), fails, worst)
+                c.count(("ias15-controller", mode, min_dt, direction, exact))
+    c.cov["ias15_controller_tie"] = istats
+
+    c.log("section encounter-collisions")
+    # ------------------------------------------------------------------ M: halting collisions found INSIDE the encounter sub-integration
+    # MERCURIUS and TRACE search for collisions during their close-encounter sub-steps, so the end-of-step positions a heartbeat sees do not
+    # tell whether the step collided.  Independent oracle: the same system integrated with IAS15 (collision search at its own, much finer,
+    # boundaries) gives the collision time t_c; if t_c lies well inside a step of the integrator under test (not within 12 % of a boundary),
+    # integrate() must return COLLISION exactly at the boundary ending that step.  The flag handed to the model comes from this oracle.
+    mstats = {"scenes": 0, "skipped_near_boundary": 0, "collisions": 0, "on_shortened_last_step": 0}
+    nM = 6 if thorough else 2
+    for integ in ("mercurius", "trace"):
+        for rep in range(nM):
+            rng = c.rng.fork()
+            dt0 = rng.choice([0.02, 0.03, 0.05])
+            theta = rng.uniform(0.25, 0.9)
+            mp = rng.choice([1e-3, 3e-4])
+            rad = rng.uniform(0.006, 0.015)
+
+            def scene(name):
+                sim = rebound.Simulation()
+                sim.integrator = name
+                sim.add(m=1.0)
+                sim.add(m=mp, a=1.0, e=0.0, f=0.0, r=rad)
+                sim.add(m=mp, a=1.0, e=0.0, f=theta, inc=math.pi, r=rad)       # same circle, retrograde: head-on
+                sim.move_to_com()
+                sim.dt = dt0
+                sim.collision = "direct"
+                sim.collision_resolve = "halt"
+                return sim
+            ref = scene("ias15")
+            try:
+                ref.integrate(5.0)
+                t_c = None
+            except rebound.Collision:
+                t_c = ref.t
+            if t_c is None:
+                continue
+            frac = (t_c / dt0) % 1.0
+            if not 0.12 < frac < 0.88:
+                mstats["skipped_near_boundary"] += 1
+                continue
+            k_exp = int(math.floor(t_c / dt0)) + 1
+            # exact_finish_time = 1 with tmax inside the colliding step: the collision falls on the shortened last step
+            last = rng.chance(0.5)
+            tmax = (k_exp - 1) * dt0 + (0.5 * (frac + 1.0) * dt0 if last else 10 * dt0)
+            sim = scene(integ)
+            steps0 = sim.steps_done
+            rec = H.call(sim, tmax, 1, conds=lambda q, k_exp=k_exp, steps0=steps0: (F_COLL if q.steps_done - steps0 == k_exp else 0))
+            record(integ, rec, "encounter-collision")
+            mstats["scenes"] += 1
+            mstats["collisions"] += 1 if rec["ret"] == 7 else 0
+            mstats["on_shortened_last_step"] += 1 if (last and rec["ret"] == 7) else 0
+            if rec["ret"] != 7 or rec["post"][4] - rec["pre"][4] != k_exp:
+                fails.append(("status-first-boundary", "%s: a collision inside the encounter sub-integration (reference IAS15 run: t_c = %.6f, step %d) "
+                              "was returned as status %s after %d steps" % (integ, t_c, k_exp, rec["ret"], rec["post"][4] - rec["pre"][4]),
+                              dict(integrator=integ, dt=dt0, theta=theta, m=mp, r=rad, t_collision_reference=t_c, expected_steps=k_exp,
+                                   returned=rec["ret"], steps=rec["post"][4] - rec["pre"][4], tmax=tmax)))
+            else:
+                check_dt_restored_on_exit(integ, rec, fails, gstats, "encounter-collision")
+            c.count(("encounter-collision", integ, last))
+    c.cov["collisions_inside_encounter_substeps"] = mstats
+
     # ------------------------------------------------------------------ model vs implementation
     c.log("running %d integrate calls through drv_c08" % len(lines))
     got = run_driver(exe, lines)
     ndis, nwithin, first = 0, 0, None
     adaptive_pred = {"checked": 0, "shrunk_inside_step": 0}
+    ias15_obs = {"steps": 0, "proposal_below_min_dt": 0, "retried_inside_step": 0}
     if len(got) != len(lines):
         c.corr_break("driver returned %d lines for %d calls" % (len(got), len(lines)))
     else:
@@ -966,15 +1272,29 @@ def run(c):
                     adaptive_pred["checked"] += 1
                     if d2h(done) != d2h(dt0):
                         adaptive_pred["shrunk_inside_step"] += 1
+                    # conclusions of c08_ias15_progress, observed per step (dt0 = the step the model says it was called with)
+                    md = rec.get("ias15_min_dt")
+                    if md:
+                        ias15_obs["steps"] += 1
+                        newdt = b[1]
+                        c1 = d2h(done) == d2h(dt0) or abs(done) >= md
+                        c2 = abs(newdt) >= md or (d2h(newdt) == d2h(done / 0.25) and d2h(done) == d2h(dt0) and abs(dt0) < md)
+                        ias15_obs["proposal_below_min_dt"] += 0 if abs(newdt) >= md else 1
+                        ias15_obs["retried_inside_step"] += 0 if d2h(done) == d2h(dt0) else 1
+                        if not (c1 and c2 and math.copysign(1, newdt) == math.copysign(1, dt0)):
+                            fails.append(("ias15-progress", "an IAS15 step violates the bounds derived from its step-size controller (c08_ias15_progress)",
+                                          dict(min_dt=md, dt_in=dt0, dt_done=done, dt_new=newdt, tmax=rec["tmax"])))
                     if not (done != 0 and math.copysign(1, done) == math.copysign(1, dt0) and abs(done) <= abs(dt0)) or (integ == "bs" and d2h(done) != d2h(dt0)):
                         fails.append(("adaptive-step-predicate", "an accepted adaptive step advanced by more than / against the dt it was called with",
                                       dict(integrator=integ, dt_in=dt0, dt_done=done, tmax=rec["tmax"])))
+    c.cov["no_progress_guard"] = guard_stats
     c.cov["model_calls_compared"] = len(lines)
     c.cov["disagreements"] = ndis
     c.cov["bitwise_mismatches_within_tolerance"] = nwithin
     c.cov["steps_per_call_histogram"] = hist_steps
     c.cov["family_histogram"] = fam_hist
     c.cov["adaptive_step_predicate"] = adaptive_pred
+    c.cov["ias15_progress_observed"] = ias15_obs
     if ndis:
         c.corr_break("%d of %d integrate calls differ between model and implementation; first: %s %s" %
                      (ndis, len(lines), first["integrator"], first["case"]), first)
@@ -990,6 +1310,7 @@ def run(c):
 
 
 def search_more(c, H, scratch, fails, worst):
+    c.log("search")
     rebound = H.rebound
     thorough = c.thorough
 
@@ -1223,17 +1544,22 @@ def search_more(c, H, scratch, fails, worst):
     # absorbed step: |t| so large that t + dt == t
     nH = 6 if thorough else 2
     hang = []
+    guarded = 0
     for i in range(nH):
         rng = c.rng.fork()
         integ = rng.choice(["leapfrog", "whfast", "none", "saba"])
         t0 = rng.choice([1, -1]) * 10.0 ** rng.randint(15, 17)
         dt = math.ulp(t0) / rng.choice([8, 64, 1024])
         job = dict(integrator=integ, t0=t0, dt=dt, tmax=t0 + math.copysign(4 * math.ulp(t0), rng.choice([1, -1])), exact=rng.choice([0, 1]))
+        if i == 1:
+            job = dict(integrator=integ, t0=0.0, dt=0.0, tmax=1.0, exact=rng.choice([0, 1]))     # dt == 0: the same mechanism
         r = probe(scratch, job, timeout=6)
         c.count(("probe", "absorbed", integ))
-        if r["outcome"] != "ok" or r.get("status") != "ok":
+        if r["outcome"] == "ok" and r.get("status") == "RuntimeError" and r.get("t") == job["t0"]:
+            guarded += 1          # stopped with an error by the no-progress guard: repaired behaviour
+        elif r["outcome"] != "ok" or r.get("status") != "ok":
             hang.append(dict(job=job, result=r))
-    probes["absorbed_step"] = {"runs": nH, "hangs_or_errors": len(hang)}
+    probes["absorbed_step"] = {"runs": nH, "hangs_or_errors": len(hang), "stopped_by_progress_guard": guarded}
     if hang:
         fails.append(("C08-N2:absorbed-step-hang", "integrate() never returns when |t| is so large that t + dt == t in double precision "
                       "(the loop makes no progress and has no guard)", hang[0]))
